@@ -137,6 +137,9 @@ def weave(repo, dst, variant="A", features=(), quiet=False):
     p = touch("src/lib.rs")
     with open(p, "a") as f:
         f.write(f'\n#[cfg(kani)]\n#[path = "{os.path.join(dst, "src", "__vspec", "mod.rs")}"]\npub(crate) mod __vspec;\n')
+    if os.path.isdir(os.path.join(dst, "src", "__vtables")):
+        with open(p, "a") as f:
+            f.write(f'\n#[cfg(kani)]\n#[path = "{os.path.join(dst, "src", "__vtables", "mod.rs")}"]\npub(crate) mod __vtables;\n')
     # crate-level feature gates some harnesses need go to the top of lib.rs
     with open(p) as f:
         s = f.read()
